@@ -7,6 +7,7 @@ package main
 import (
 	"fmt"
 	"go/ast"
+	"go/token"
 	"go/types"
 	"sort"
 	"strings"
@@ -101,6 +102,9 @@ func isDelim(c byte) bool { return c == ' ' || c == '(' || c == ')' }
 
 // entryFamilies instantiates the function's own writes clauses at entry.
 func (fx *FuncCtx) entryFamilies() []famInst {
+	if fx.famOverride != nil {
+		return fx.famOverride
+	}
 	if fx.famCache != nil || fx.con == nil {
 		return fx.famCache
 	}
@@ -132,6 +136,27 @@ func (fx *FuncCtx) witnessCands(st *State, extra []Term) []Term {
 	}
 	for i := len(fx.loops) - 1; i >= 0; i-- {
 		add(fx.loops[i].it)
+	}
+	if fx.con != nil && fx.inlineDepth == 0 {
+		for _, w := range fx.con.Witnesses {
+			func() {
+				defer func() {
+					if r := recover(); r != nil {
+						if _, is := r.(unsupported); !is {
+							panic(r)
+						}
+					}
+				}()
+				pos := token.NoPos
+				if fx.curNode != nil {
+					pos = fx.curNode.Pos()
+				}
+				fx.discard++
+				defer func() { fx.discard-- }()
+				t := fx.specTerm(&specEnv{fx: fx, cur: st, old: fx.entry, binds: map[string]sval{}, pos: pos}, w.Expr)
+				add(t)
+			}()
+		}
 	}
 	// integer locals (not parameters' entry constants), innermost loops first is not known; sort by name for determinism
 	type nv struct {
@@ -207,7 +232,27 @@ func (fx *FuncCtx) memberGoal(st *State, fams []famInst, rid, addr Term, extra [
 				}
 			}
 		}
-		for _, ws := range tuples(cands, len(f.vars), 200) {
+		if len(f.vars) == 1 {
+			// sums and differences of pairs (inner counters offset by outer ones)
+			base := cands
+			if len(base) > 6 {
+				base = base[:6]
+			}
+			for _, a := range base {
+				for _, b := range base {
+					if a.S == b.S || len(a.S)+len(b.S) > 160 {
+						continue
+					}
+					cands = append(cands, Add(a, b), Add(Add(a, b), IntLit(1)), Sub(Sub(a, b), IntLit(1)))
+				}
+			}
+		}
+		// coefficient decomposition of the address polynomial with respect to the family's stride symbols
+		for _, ws := range fx.decompose(f, rel) {
+			inr, idx := f.at(ws)
+			alts = append(alts, And(same, inr, Eq(rel, idx)))
+		}
+		for _, ws := range tuples(cands, len(f.vars), 260) {
 			inr, idx := f.at(ws)
 			alts = append(alts, And(same, inr, Eq(rel, idx)))
 		}
@@ -248,6 +293,7 @@ func (fx *FuncCtx) memberGoalExists(fams []famInst, rid, addr Term) Term {
 
 // checkStore: obligations for a store to sv[idx].
 func (fx *FuncCtx) checkStore(st *State, sv SliceV, idx Term, node ast.Node) {
+	fx.curNode = node
 	fx.loopStoreCheck(sv, node)
 	if !fx.visible(sv.Rid) {
 		return
@@ -287,6 +333,7 @@ func (fx *FuncCtx) checkStoreRange(st *State, sv SliceV, lo, n Term, node ast.No
 
 // checkCallFrame: the callee's write family lies inside ours.
 func (fx *FuncCtx) checkCallFrame(st *State, f famInst, node ast.Node, what string) {
+	fx.curNode = node
 	fx.loopStoreCheck(f.sl, node)
 	if !fx.visible(f.sl.Rid) {
 		return
@@ -487,4 +534,93 @@ func mentionsAnyVar(t Term, vars []Term) bool {
 		}
 	}
 	return false
+}
+
+// decompose proposes witnesses by writing rel as a polynomial in the stride
+// symbol of the family index (A*ld + B -> (A, B); base + K*inc -> K).
+func (fx *FuncCtx) decompose(f famInst, rel Term) [][]Term {
+	if len(f.vars) == 0 || len(f.vars) > 2 {
+		return nil
+	}
+	var it []sterm
+	flattenSum(parseSx(f.index.S), false, fx.defs, 0, &it)
+	// stride symbol of the first variable
+	v0 := f.vars[0].S
+	stride := ""
+	var baseTerms []sterm
+	unit := map[string]bool{}
+	for _, t := range it {
+		s := t.t.String()
+		if t.t.isApp("*") && len(t.t.kids) == 3 && !t.neg {
+			if t.t.kids[1].String() == v0 && !mentionsAnyVar(Term{t.t.kids[2].String(), SInt}, f.vars) {
+				stride = t.t.kids[2].String()
+				continue
+			}
+			if t.t.kids[2].String() == v0 && !mentionsAnyVar(Term{t.t.kids[1].String(), SInt}, f.vars) {
+				stride = t.t.kids[1].String()
+				continue
+			}
+		}
+		isVar := false
+		for _, v := range f.vars {
+			if s == v.S && !t.neg {
+				unit[v.S] = true
+				isVar = true
+			}
+		}
+		if !isVar {
+			if mentionsAnyVar(Term{s, SInt}, f.vars) {
+				return nil
+			}
+			baseTerms = append(baseTerms, t)
+		}
+	}
+	var rt []sterm
+	flattenSum(parseSx(Sub(rel, sumOf(baseTerms)).S), false, fx.defs, 0, &rt)
+	// cancel syntactically equal opposite terms
+	rt = cancelTerms(rt)
+	switch len(f.vars) {
+	case 1:
+		if stride == "" {
+			if unit[v0] {
+				return [][]Term{{sumOf(rt)}}
+			}
+			return nil
+		}
+		co, rest := splitByFactor(rt, stride)
+		if len(rest) != 0 {
+			return nil
+		}
+		return [][]Term{{sumOf(co)}}
+	case 2:
+		if stride == "" || !unit[f.vars[1].S] {
+			return nil
+		}
+		co, rest := splitByFactor(rt, stride)
+		return [][]Term{{sumOf(co), sumOf(rest)}}
+	}
+	return nil
+}
+
+func cancelTerms(ts []sterm) []sterm {
+	used := make([]bool, len(ts))
+	var out []sterm
+	for i := range ts {
+		if used[i] {
+			continue
+		}
+		si := ts[i].t.String()
+		cancelled := false
+		for j := i + 1; j < len(ts); j++ {
+			if !used[j] && ts[j].neg != ts[i].neg && ts[j].t.String() == si {
+				used[j] = true
+				cancelled = true
+				break
+			}
+		}
+		if !cancelled {
+			out = append(out, ts[i])
+		}
+	}
+	return out
 }
